@@ -15,7 +15,9 @@ RULE = ('histories on the real Bus with raw scripted clients (real handshake and
         'length <=3 (quick) / <=4 (thorough) over 3 clients x 1 name x {8 request flags, release, disconnect}, '
         'exhaustive; enum_q3: three requests by three clients with all 8^3 flag combinations followed by every single '
         'operation (quick) / every pair of operations with flags 0-3 (thorough), exhaustive; random: histories to 40 '
-        'steps with 4 clients and 2 names; dense: 3-12 steps, one name, mostly requests. After EVERY step the reply code, the '
+        'steps with 4 clients and 2 names; dense: 3-12 steps, one name, mostly requests, with AddMatch / RemoveMatch by '
+        'the same connections in between; enum_rules: 8 match-rule prefixes (the same rule twice, partly removed ...) held '
+        'by owner or waiter before a name changes hands. After EVERY step the reply code, the '
         'NameAcquired / NameLost signals each client received, and GetNameOwner / ListQueuedOwners for every name (asked '
         'by an observer connection) are compared with a reference name table (queue per name, head = owner); '
         'invariants: owner connected, no duplicate or dead queue entries, a released/disconnected client in no queue. '
@@ -64,6 +66,7 @@ def run_history(case):
         out.append(Disc('unique-names-collide', repr(uname)))
     live = set(clients)
     next_id = case['nclients']
+    rules_held = {}
     try:
         for c in clients.values():
             _signals(c)
@@ -113,6 +116,21 @@ def run_history(case):
                     if r['body'][0] != code:
                         out.append(Disc('release.code:%s:%d->%d' % (before, code, r['body'][0]),
                                         '%s: caller is %s: expected reply %d got %d' % (where, before, code, r['body'][0])))
+                        break
+                elif kind in ('addmatch', 'removematch'):
+                    # what else a connection does on the bus must not disturb its names: match rules come and go
+                    text = ["type='signal',member='Tick'", "type='signal',interface='org.verif.A'"][op[2] % 2]
+                    held = rules_held.setdefault(ci, [])
+                    if kind == 'addmatch':
+                        r = c.call_bus('AddMatch', 's', [text])
+                        held.append(text)
+                    elif text in held:
+                        r = c.call_bus('RemoveMatch', 's', [text])
+                        held.remove(text)
+                    else:
+                        continue
+                    if r is None or r['type'] != 2:
+                        out.append(Disc('matchrule.refused', '%s: %r' % (where, r and (r['type'], r['body']))))
                         break
                 elif kind == 'disconnect':
                     try:
@@ -239,7 +257,9 @@ def classify(case):
         if not live:
             continue
         ci = sorted(live)[op[1] % len(live)]
-        if k == 'request':
+        if k in ('addmatch', 'removematch'):
+            labels.append('match_rules_alongside')
+        elif k == 'request':
             name = NAMES[op[2] % case['nnames']]
             if model.owner(name) not in (None, ci):
                 nt = True
@@ -312,13 +332,30 @@ def enum_three_requests_then(tier):
                 yield {'nclients': 3, 'nnames': 1, 'ops': pre + [list(a), list(b)]}
 
 
+def enum_with_rules(tier):
+    """Name hand-over by a connection that also holds match rules - none, one, the same one twice, some already removed:
+    what the bus must clean up for a leaving connection besides its names must not get in the way of the names."""
+    A, B, RA, RB = ['addmatch', 0], ['addmatch', 1], ['removematch', 0], ['removematch', 1]
+    prefixes = [[], [A], [A, A], [A, A, RA], [A, RA], [A, B, RA], [A, A, RA, RA], [A, B, A, RB]]
+    for pre in prefixes:
+        for holder in (0, 1):
+            rules = [[k, holder, r] for k, r in pre]
+            for f0, f1 in itertools.product((0, 1, 2, 3), repeat=2):
+                for closing in (['disconnect', 0], ['disconnect', 1], ['release', 0, 0]):
+                    # client indices shift after a disconnect (live clients are counted): keep it to one closing operation
+                    yield {'nclients': 3, 'nnames': 1,
+                           'ops': rules + [['request', 0, 0, f0], ['request', 1, 0, f1], closing, ['request', 2 if closing[0] == 'release' else 1, 0, 4]]}
+
+
 @st.composite
 def dense_history(draw, tier):
     """One name, three or four clients, mostly requests: contention, queues and replacements build up within a few steps."""
     ops = []
     for _ in range(draw(st.integers(3, 12))):
-        k = draw(st.sampled_from(['request'] * 8 + ['release', 'release', 'disconnect']))
-        if k == 'request':
+        k = draw(st.sampled_from(['request'] * 8 + ['release', 'release', 'disconnect', 'addmatch', 'addmatch', 'removematch']))
+        if k in ('addmatch', 'removematch'):
+            ops.append([k, draw(st.integers(0, 3)), draw(st.integers(0, 1))])
+        elif k == 'request':
             ops.append(['request', draw(st.integers(0, 3)), 0, draw(st.sampled_from([0, 0, 1, 1, 2, 2, 3, 3, 4, 5, 6, 7]))])
         elif k == 'release':
             ops.append(['release', draw(st.integers(0, 3)), 0])
@@ -421,6 +458,9 @@ SUBCHECKS = [
     Subcheck('enum_q3', run_history, classify, enumerate=enum_three_requests_then, shards={'quick': 16, 'thorough': 16},
              exhaustive_note='three requests by three clients with all 8^3 flag combinations, followed by every one of the '
                              '30 operations (quick); followed by every pair of operations with flags 0-3 (thorough)'),
+    Subcheck('enum_rules', run_history, classify, enumerate=enum_with_rules, shards={'quick': 8, 'thorough': 8},
+             exhaustive_note='8 match-rule prefixes (incl. the same rule twice, partly removed) x rule holder = owner or '
+                             'waiter x 16 flag pairs x {owner leaves, waiter leaves, owner releases}'),
     Subcheck('dense', run_history, classify, strategy=lambda tier: dense_history(tier),
              n={'quick': 500, 'thorough': 5000}, shards={'quick': 8, 'thorough': 16}),
     Subcheck('client_flags', run_client_flags, lambda c: (True, ['code%d' % c['code']]), enumerate=enum_client_flags,
